@@ -32,11 +32,12 @@ compat.pin_policy_order()
 
 class StackRig:
     def __init__(self, tape, *, version=8, path="/dev/ttySIM", plan=None, K=1, sched=True, max_iters=400_000,
-                 max_vt=1e6, chunking=True, monitor=True, fast_line=False, loop=None, defer=False):
+                 max_vt=1e6, chunking=True, monitor=True, fast_line=False, loop=None, defer=False, flow_control=None):
         self.tape = tape
         self.version, self.K, self.chunking, self.monitor, self.fast_line = version, K, chunking, monitor, fast_line
         self.log = []
         self.path = path
+        self.flow_control = flow_control
         self.plan = plan if plan is not None else FaultPlan(tape, False)
         self.transport = None
         self.ash = None  # the real AshProtocol
@@ -150,7 +151,7 @@ class StackRig:
 
     # ---------------------------------------------------------------- bring-up
     def device_config(self):
-        return {"path": self.path, "baudrate": 115200, "flow_control": None}
+        return {"path": self.path, "baudrate": 115200, "flow_control": self.flow_control}
 
     async def connect(self):
         ez = bellows.ezsp.EZSP(self.device_config())
